@@ -95,16 +95,26 @@ func (T *Token) SDTVal() string {
 	res := sdtRex.ReplaceAllStringFunc(string(T.Lit), func(match string) string {
 		switch match[1] {
 		case 'T': // user wants this as a token.
-			return "X[" + match[2:] + "].(*token.Token)"
+			return "X[" + decimal(match[2:]) + "].(*token.Token)"
 
 		case 'C': // user wants context.
 			return "C"
 
 		default: // just pass it as an attrib.
-			return "X[" + match[1:] + "]"
+			return "X[" + decimal(match[1:]) + "]"
 		}
 	})
 	return strings.TrimSpace(res[2 : len(res)-2])
+}
+
+// decimal removes leading zeros: pasted into Go source, "010" would be an octal literal (and
+// "08" none at all).
+func decimal(digits string) string {
+	digits = strings.TrimLeft(digits, "0")
+	if digits == "" {
+		return "0"
+	}
+	return digits
 }
 
 // Tokenmap
